@@ -168,7 +168,8 @@ func (ro *Roles) admitVars(paths []*Path) (map[string]string, string) {
 					pl = w.AP(l.in.Common().Args[pIdx])
 				}
 				// rendered in the caller: its own receiver is "recv" too (methods of the runner)
-				if def != "recv.defs.Pipelines["+pl+"]" && !strings.HasPrefix(def, "recv.defs.Pipelines["+pl+"]") {
+				ranged := def == "rangeval(recv.defs.Pipelines)" && pl == "rangekey(recv.defs.Pipelines)" // listing: the element of the same iteration
+				if def != "recv.defs.Pipelines["+pl+"]" && !strings.HasPrefix(def, "recv.defs.Pipelines["+pl+"]") && !ranged {
 					okAll = false
 				}
 			}
